@@ -191,7 +191,11 @@ func (r *Report) Finish(quiet bool) int {
 			stale = append(stale, k.Rule+" "+k.Construct)
 		}
 	}
-	vdir := filepath.Join(verifDir, "evidence", "violations")
+	evDir := filepath.Join(verifDir, "evidence")
+	if d := os.Getenv("VERIF_EVIDENCE_DIR"); d != "" {
+		evDir = d // scratch runs against seeded changes must not overwrite the committed evidence
+	}
+	vdir := filepath.Join(evDir, "violations")
 	os.MkdirAll(vdir, 0o755)
 	// remove old violation files of this property
 	if old, _ := filepath.Glob(filepath.Join(vdir, r.Property+"-*.json")); old != nil {
@@ -291,8 +295,8 @@ func (r *Report) Finish(quiet bool) int {
 		"violations":  len(newF),
 	}
 	b, _ := json.MarshalIndent(ev, "", " ")
-	os.MkdirAll(filepath.Join(verifDir, "evidence"), 0o755)
-	if err := os.WriteFile(filepath.Join(verifDir, "evidence", r.Property+".json"), b, 0o644); err != nil {
+	os.MkdirAll(evDir, 0o755)
+	if err := os.WriteFile(filepath.Join(evDir, r.Property+".json"), b, 0o644); err != nil {
 		analysisError("cannot write evidence: %v", err)
 	}
 	if len(floorErrs) > 0 {
